@@ -175,6 +175,27 @@ static int scn_overflow(int nasync, int nsync) {
 	return atomic_load(&next_ticket);
 }
 
+// watchdog: a lost wakeup or a leaked width leaves a client blocked for ever; report the round as stuck and dump what was recorded
+static dispatch_lane_t wd_dl; static uint64_t wd_st0; static int wd_n; static const char *wd_scn = "mix"; static _Atomic int wd_on;
+static void *watchdog(void *a) { (void)a;
+	int last = -1, still = 0;
+	for (;;) {
+		sleep(1);
+		if (!atomic_load(&wd_on)) { still = 0; last = -1; continue; }
+		int now = atomic_load(&ran) * 7 + atomic_load(&next_ticket) * 3 + cur_round * 1000003;
+		if (now != last) { last = now; still = 0; continue; }
+		if (++still < 25) continue;
+		atomic_store(&dv_enabled, 0);
+		int total = atomic_load(&next_ticket), nran = 0, bad = 0;
+		for (int k = 0; k < total; k++) { int x = atomic_load(&items[k].runs); nran += x; if (x != 1) bad++; }
+		printf("R %d %d %d %d %d %" PRIu64 " %" PRIu64 " %d %d %d %d %d %s\n", cur_round, (int)wd_dl->dq_width, wd_n, total, nran, wd_st0,
+				*(volatile uint64_t *)&wd_dl->dq_state, 0, atomic_load(&overlap_err), bad, atomic_load(&syncret_err),
+				atomic_load(&maxreaders), wd_scn);
+		dv_dump(stdout); fflush(stdout); _exit(0);
+	}
+	return NULL;
+}
+
 int main(int argc, char **argv) {
 	uint64_t seed = argc > 1 ? strtoull(argv[1], 0, 10) : 1; int rounds = argc > 2 ? atoi(argv[2]) : 8;
 	int permille = argc > 3 ? atoi(argv[3]) : 200; int scale = argc > 4 ? atoi(argv[4]) : 1;
@@ -186,6 +207,7 @@ int main(int argc, char **argv) {
 			offsetof(struct dispatch_lane_s, dq_items_tail), offsetof(struct dispatch_lane_s, dq_items_head));
 	dv_install(seed, permille);
 	_dispatch_verif_cb = cl_cb;
+	wd_scn = scn; { pthread_t wt; pthread_create(&wt, NULL, watchdog, NULL); }
 	uint64_t r = seed * 6364136223846793005ull + 1442695040888963407ull;
 	static const long WIDTHS[] = { 0, 2, 3, 4, 8, 2, 0, 5 };
 	for (int i = 0; i < rounds; i++) {
@@ -205,10 +227,11 @@ int main(int argc, char **argv) {
 		dv_untrack_all();
 		dv_track(dl, sizeof(struct dispatch_lane_s), i);
 		int n = 0, total;
+		wd_dl = dl; wd_st0 = st0; wd_n = 0; atomic_store(&wd_on, 1);
 		if (overflow) {
 			total = scn_overflow((int)dl->dq_width - (int)((r >> 40) % 3), 3 + (int)((r >> 44) % 4));
 		} else {
-			n = 2 + (int)((r >> 36) % (MAXT - 1));
+			n = 2 + (int)((r >> 36) % (MAXT - 1)); wd_n = n;
 			pthread_t th[MAXT]; targ_t ta[MAXT];
 			pthread_barrier_init(&bar, NULL, (unsigned)n);
 			int profile = (int)((r >> 48) % 4);
@@ -226,6 +249,7 @@ int main(int argc, char **argv) {
 			total = atomic_load(&next_ticket);
 		}
 		int idle = wait_idle(dl, total);
+		atomic_store(&wd_on, 0);
 		usleep(300);
 		uint64_t st1 = *(volatile uint64_t *)&dl->dq_state;
 		int nran = 0, bad = 0; for (int k = 0; k < total; k++) { int x = atomic_load(&items[k].runs); nran += x; if (x != 1) bad++; }
